@@ -122,6 +122,18 @@ CHECKS = {
    note="counters: model_checking; peak heap: a measurement bounded by the specification's constant (exploration-level); known finding "
         "C08-nested-anchor-recording is suppressed only for the `nested` family's heap verdict; " + TRUST,
    technique="TLA+ model (LiveEvents.tla + Bounds.tla) checked by TLC + TLC trace validation of limit outcomes and observer counts"),
+ "C12": dict(
+   category="model_checking",
+   text="Quoting.tla models the serializer's decision to write a string plain in a position and, independently, what a YAML "
+        "reader makes of that text there; TLC checks on every short string over an adversarial alphabet x positions x yaml_12 "
+        "that plain is chosen only when the text reads back as the same string (never null, number, boolean, merge key, "
+        "document marker or another string); every string case, look-alike and random string is serialized at six positions "
+        "under eight option sets by the real crate and read back, integers at all width boundaries, floats bit for bit, bytes, "
+        "chars; the TLA+ trace validator decides identity and checks every emitted float shape against the float grammar.",
+   design_ref="DESIGN.md section 4 C12",
+   note="bounded: strings <= 3 (quick) / 4 (thorough) symbols exhaustively, random to length 12; quick samples f32 patterns, thorough "
+        "sweeps all 2^32; model/real plain-decision differences are reported as binding drift, not violations; " + TRUST,
+   technique="TLA+ model (Quoting.tla) checked by TLC + TLC trace validation of recorded round trips"),
 }
 
 NOT_YET = "check not built yet (work in progress); it will be claimed once its TLA+ model and conformance harness are registered"
